@@ -98,7 +98,17 @@ func (f *Frame) evalArgs(st *State, fn *types.Func, call *ast.CallExpr) ([]Term,
 			if call.Ellipsis.IsValid() {
 				pt = sig.Params().At(n - 1).Type()
 			} else {
-				f.vc.fail(call.Pos(), "variadic call to %s is not supported", fn.Name())
+				// pack the remaining arguments into a slice value
+				et := sig.Params().At(n - 1).Type().(*types.Slice).Elem()
+				es := f.sortOf(et)
+				arr := ConstArray(SInt, es, f.vc.zeroSort(es))
+				k := 0
+				for _, x := range call.Args[i:] {
+					arr = Store(arr, IntLit(int64(k)), f.convert(f.expr(st, x), f.typeOf(x), et))
+					k++
+				}
+				args = append(args, f.vc.define("va", MkSlice(arr, IntLit(int64(k)))))
+				return args, recvT
 			}
 		} else {
 			pt = sig.Params().At(i).Type()
@@ -108,6 +118,10 @@ func (f *Frame) evalArgs(st *State, fn *types.Func, call *ast.CallExpr) ([]Term,
 			continue
 		}
 		args = append(args, f.convert(f.expr(st, a), f.typeOf(a), pt))
+	}
+	if sig.Variadic() && len(call.Args) < n {
+		es := f.sortOf(sig.Params().At(n - 1).Type().(*types.Slice).Elem())
+		args = append(args, MkSlice(ConstArray(SInt, es, f.vc.zeroSort(es)), IntLit(0)))
 	}
 	return args, recvT
 }
@@ -170,6 +184,11 @@ func (f *Frame) invoke(st *State, fi *FuncInfo, args []Term, tsub map[*types.Typ
 	vc := f.vc
 	switch fi.Kind {
 	case KContract:
+		if f.spec && len(f.bound) > 0 && fi.Decl != nil && fi.Decl.Body != nil {
+			// a specification under a quantifier denotes the function itself (fresh result constants of a
+			// contract call cannot depend on the bound variable): inline the real body
+			return f.inline(st, fi.Pkg, fi.Decl, fi, args, tsub, true, pos)
+		}
 		return f.callByContract(st, fi, args, tsub, pos)
 	case KModel:
 		return f.inline(st, fi.MPkg, fi.Model, nil, args, tsub, true, pos)
@@ -244,6 +263,9 @@ func bindSpec(sp *Spec, args, results []Term) map[envKey]Term {
 func (f *Frame) callByContract(st *State, fi *FuncInfo, args []Term, tsub map[*types.TypeParam]types.Type, pos token.Pos) []Term {
 	vc := f.vc
 	sp := fi.Spec
+	if len(f.bound) > 0 {
+		vc.fail(pos, "call of %s by contract under a quantifier is not supported", fi.Key)
+	}
 	vc.callN[fi.Key]++
 	site := fmt.Sprintf("call.%s#%d", fi.Key, vc.callN[fi.Key])
 	pre := st.clone()
@@ -311,6 +333,11 @@ func (f *Frame) havocModifies(st, pre *State, sf *Frame, m ast.Expr) {
 		}
 	}
 	t := sf.typeOf(m)
+	if gv, ok := sf.ghostMapVar(m); ok {
+		ks, vs := vc.mapSorts(t)
+		vc.heapSet(st, ghostMapKey(gv), vc.fresh("hvgm", ArraySort(ks, vs)))
+		return
+	}
 	if _, isMap := t.Underlying().(*types.Map); isMap {
 		ref := sf.expr(pre.clone(), m)
 		ks, vs := vc.mapSorts(t)
@@ -377,6 +404,10 @@ func (f *Frame) modifiesSets(sp *Spec, sf *Frame, pre *State) map[string]*modSet
 			}
 		}
 		t := sf.typeOf(m)
+		if gv, ok := sf.ghostMapVar(m); ok {
+			add(ghostMapKey(gv), nil)
+			continue
+		}
 		if _, isMap := t.Underlying().(*types.Map); isMap {
 			ref := sf.expr(pre.clone(), m)
 			ks, vs := vc.mapSorts(t)
@@ -475,6 +506,15 @@ func (f *Frame) inline(st *State, cpk *packages.Package, decl *ast.FuncDecl, fi 
 }
 
 func (f *Frame) inlineLit(st *State, lit *ast.FuncLit, call *ast.CallExpr) []Term {
+	sig := f.typeOf(lit).(*types.Signature)
+	var argv []Term
+	for i, a := range call.Args {
+		argv = append(argv, f.convert(f.expr(st, a), f.typeOf(a), sig.Params().At(i).Type()))
+	}
+	return f.inlineLitArgs(st, lit, argv)
+}
+
+func (f *Frame) inlineLitArgs(st *State, lit *ast.FuncLit, argv []Term) []Term {
 	vc := f.vc
 	sig := f.typeOf(lit).(*types.Signature)
 	nf := &Frame{vc: vc, pk: f.pk, fi: f.fi, old: f.old, spec: f.spec, tsub: f.tsub, bound: f.bound, specEnv: f.specEnv,
@@ -483,8 +523,9 @@ func (f *Frame) inlineLit(st *State, lit *ast.FuncLit, call *ast.CallExpr) []Ter
 	for _, fld := range lit.Type.Params.List {
 		for _, nm := range fld.Names {
 			obj := f.info().Defs[nm]
-			a := call.Args[i]
-			st.env[envKey{obj, ""}] = f.convert(f.expr(st, a), f.typeOf(a), sig.Params().At(i).Type())
+			if nm.Name != "_" && obj != nil {
+				st.env[envKey{obj, ""}] = argv[i]
+			}
 			i++
 		}
 	}
@@ -629,7 +670,9 @@ func (f *Frame) quantifier(st *State, call *ast.CallExpr, litArg int, exists boo
 			objs = append(objs, obj)
 		}
 	}
+	vc.quantDepth++
 	body := f.pureBody(st, lit)
+	vc.quantDepth--
 	for _, o := range objs {
 		if old, ok := saved[o]; ok {
 			f.bound[o] = old
@@ -727,6 +770,10 @@ func (f *Frame) vsCall(st *State, name string, call *ast.CallExpr) []Term {
 			}
 			return And(cs...)
 		})}
+	case "SameBytes", "SameSlice":
+		return []Term{Eq(f.expr(st, call.Args[0]), f.expr(st, call.Args[1]))}
+	case "ForallString2", "ForallString3":
+		return []Term{f.quantifier(st, call, 0, false, nil)}
 	case "Has":
 		m := f.expr(st, call.Args[0])
 		mt := f.typeOf(call.Args[0]).Underlying().(*types.Map)
@@ -737,9 +784,8 @@ func (f *Frame) vsCall(st *State, name string, call *ast.CallExpr) []Term {
 		vc.oblige(st, "assert."+stringConst(f.pk, call.Args[0]), "assert", cond, call.Pos(), vc.srcText(f.pk, call.Args[1]))
 		return nil
 	case "Assume":
-		vc.dropped["vs.Assume"]++
+		vc.dropped["vs.Assume (inside trusted models / ghost code)"]++
 		vc.assume(st, f.expr(st, call.Args[0]))
-		st.pc = vc.define("pc", And(st.pc, f.expr(st, call.Args[0])))
 		return nil
 	case "NondetBool":
 		return []Term{vc.fresh("nd", SBool)}
@@ -793,7 +839,7 @@ func (f *Frame) checkMonitors(st *State, site string, pos token.Pos) {
 	for _, m := range f.monitors {
 		mf := &Frame{vc: vc, pk: m.pk, spec: true, old: f.old, specEnv: m.env, bound: map[types.Object]Term{}}
 		cond := mf.expr(st, m.expr)
-		vc.oblige(st, "monitor."+m.label+"@"+site, "monitor", cond, pos, m.label)
+		vc.obligeOnly(st, "monitor."+m.label+"@"+site, "monitor", cond, pos, m.label)
 	}
 }
 
@@ -968,8 +1014,6 @@ func (f *Frame) ifaceCall(st *State, fn *types.Func, call *ast.CallExpr) []Term 
 	vc := f.vc
 	sel := ast.Unparen(call.Fun).(*ast.SelectorExpr)
 	recv := f.expr(st, sel.X)
-	it := fn.Type().(*types.Signature).Recv().Type()
-	iface := it.Underlying().(*types.Interface)
 	// an explicit (assumed) contract on the interface method wins
 	if fi := vc.prog.Funcs[fn.Origin()]; fi != nil && fi.Kind == KContract {
 		args := []Term{recv}
@@ -979,43 +1023,12 @@ func (f *Frame) ifaceCall(st *State, fn *types.Func, call *ast.CallExpr) []Term 
 		}
 		return f.callByContract(st, fi, args, f.tsub, call.Pos())
 	}
-	// closed world: implementations declared in the loaded repo packages
-	type impl struct {
-		t  types.Type
-		fn *types.Func
-	}
-	var impls []impl
+	impls := f.implsOf(fn)
 	var names []string
-	for _, pk := range vc.prog.Pkgs {
-		if !strings.HasPrefix(pk.PkgPath, "github.com/mazrean/kessoku") || pk.Types == nil {
-			continue
-		}
-		sc := pk.Types.Scope()
-		for _, nm := range sc.Names() {
-			tn, ok := sc.Lookup(nm).(*types.TypeName)
-			if !ok || tn.IsAlias() {
-				continue
-			}
-			if _, isI := tn.Type().Underlying().(*types.Interface); isI {
-				continue
-			}
-			if n, ok := tn.Type().(*types.Named); ok && n.TypeParams().Len() > 0 {
-				continue
-			}
-			pt := types.NewPointer(tn.Type())
-			if types.Implements(pt, iface) {
-				o, _, _ := types.LookupFieldOrMethod(pt, true, pk.Types, fn.Name())
-				if m, ok := o.(*types.Func); ok {
-					impls = append(impls, impl{pt, m})
-					names = append(names, pt.String())
-				}
-			}
-		}
-	}
+	_ = names
 	if len(impls) == 0 {
 		vc.fail(call.Pos(), "interface call %s: no implementation found and no contract on the interface method", fn.Name())
 	}
-	sort.Slice(impls, func(i, j int) bool { return impls[i].t.String() < impls[j].t.String() })
 	vc.dropped["closed-world dispatch of "+fn.FullName()]++
 	sig := fn.Type().(*types.Signature)
 	var argv []Term
@@ -1058,6 +1071,45 @@ func (f *Frame) ifaceCall(st *State, fn *types.Func, call *ast.CallExpr) []Term 
 	return results
 }
 
+type ifaceImpl struct {
+	t  types.Type
+	fn *types.Func
+}
+
+// implsOf: closed world - implementations of an interface method declared in the loaded repo packages.
+func (f *Frame) implsOf(fn *types.Func) []ifaceImpl {
+	vc := f.vc
+	iface := fn.Type().(*types.Signature).Recv().Type().Underlying().(*types.Interface)
+	var impls []ifaceImpl
+	for _, pk := range vc.prog.Pkgs {
+		if !strings.HasPrefix(pk.PkgPath, "github.com/mazrean/kessoku") || pk.Types == nil {
+			continue
+		}
+		sc := pk.Types.Scope()
+		for _, nm := range sc.Names() {
+			tn, ok := sc.Lookup(nm).(*types.TypeName)
+			if !ok || tn.IsAlias() {
+				continue
+			}
+			if _, isI := tn.Type().Underlying().(*types.Interface); isI {
+				continue
+			}
+			if n, ok := tn.Type().(*types.Named); ok && n.TypeParams().Len() > 0 {
+				continue
+			}
+			pt := types.NewPointer(tn.Type())
+			if types.Implements(pt, iface) {
+				o, _, _ := types.LookupFieldOrMethod(pt, true, pk.Types, fn.Name())
+				if m, ok := o.(*types.Func); ok {
+					impls = append(impls, ifaceImpl{pt, m})
+				}
+			}
+		}
+	}
+	sort.Slice(impls, func(i, j int) bool { return impls[i].t.String() < impls[j].t.String() })
+	return impls
+}
+
 // ------------------------------------------------------------ function values
 
 // closureValue gives a function literal an identity; calls through unknown
@@ -1065,7 +1117,16 @@ func (f *Frame) ifaceCall(st *State, fn *types.Func, call *ast.CallExpr) []Term 
 func (f *Frame) closureValue(st *State, lit *ast.FuncLit) Term {
 	r := f.vc.fresh("closure", SInt)
 	f.vc.assume(st, Not(Eq(r, IntLit(0))))
+	if f.vc.closureLits == nil {
+		f.vc.closureLits = map[string]*closureInfo{}
+	}
+	f.vc.closureLits[r.S] = &closureInfo{lit: lit, fr: f}
 	return r
+}
+
+type closureInfo struct {
+	lit *ast.FuncLit
+	fr  *Frame
 }
 
 // funcValueCall models a call through a function-typed value whose body is
@@ -1077,6 +1138,15 @@ func (f *Frame) funcValueCall(st *State, call *ast.CallExpr) []Term {
 	sig, ok := f.typeOf(call.Fun).Underlying().(*types.Signature)
 	if !ok {
 		vc.fail(call.Pos(), "call of a non-function value")
+	}
+	if ci, known := vc.closureLits[fv.S]; known {
+		// a function literal of the function under verification, passed down to an inlined model: run its body
+		// in the defining frame (captured variables are shared through the environment)
+		var argv []Term
+		for i, a := range call.Args {
+			argv = append(argv, f.convert(f.expr(st, a), f.typeOf(a), sig.Params().At(i).Type()))
+		}
+		return ci.fr.inlineLitArgs(st, ci.lit, argv)
 	}
 	f.safe(st, Not(Eq(fv, IntLit(0))), "nilfunccall", call.Pos())
 	args := []Term{fv}
